@@ -86,6 +86,11 @@ pub fn sigma() -> Vec<Op> {
         Op::Uid(s("/d/f")),                        // 55
         // a relative cwd change: its argument must be resolved against the cwd the call replaces
         Op::SetCwd(s("../e")),                     // 56
+        // link-kind queries against the removal of the link (one fact from one lookup)
+        Op::IsSymlinkFile(s("/d/l")),              // 57
+        Op::IsSymlinkDir(s("/d/l")),               // 58
+        Op::Remove(s("/d/l")),                     // 59
+        Op::IsSymlink(s("/d/l")),                  // 60
     ]
 }
 
@@ -482,6 +487,8 @@ fn families(tier: Tier) -> Vec<Family> {
     f.push(Family { name: "2x2 over the relative-argument core, cwd /d", inits: Some(vec![3]), progs: programs_tk(&relcore, 2, 2), bound: None, cap: 200_000 });
     let linkcore: Vec<usize> = vec![46, 47, 48, 49, 50, 51];
     f.push(Family { name: "2x2 over the followed-listing core, dangling directory link", inits: Some(vec![5]), progs: programs_tk(&linkcore, 2, 2), bound: None, cap: 200_000 });
+    let kindcore: Vec<usize> = vec![57, 58, 59, 60];
+    f.push(Family { name: "2x2 over link-kind queries and the removal of the link, directory link", inits: Some(vec![5]), progs: programs_tk(&kindcore, 2, 2), bound: None, cap: 200_000 });
     let ownercore: Vec<usize> = vec![52, 53, 54, 55, 7, 6, 21];
     f.push(Family { name: "2x2 over the multi-fact query core, entries with different owners", inits: Some(vec![4]), progs: programs_tk(&ownercore, 2, 2), bound: None, cap: 200_000 });
     if tier == Tier::Thorough {
